@@ -118,6 +118,33 @@ PROPS["C18"] = {
 }
 
 NATIVE_SHARDS = {"quick": 8, "thorough": 32}
+_SCOPES = {
+    "C01": ("read-after-write through every register view; MUL writes the exact double-width product, CF=OF iff the upper half is non-zero; "
+            "signed fit test and two's-complement round trip for IMUL; Euclidean/truncated division identities for DIV/IDIV; ALU result values "
+            "(C02 specs); the control state and segment bases are untouched by every instruction; the model implements 312 forms",
+            "per-form operand plumbing (which operand is read/written at which width, sign/zero extension of immediates) for the 312 forms: "
+            "tied three ways (implementation, model, real CPU) on generated cases, not proved per form"),
+    "C02": ("for all operands, all incoming flag words, widths 8/16/32/64: CF/PF/AF-untouched/ZF/SF/OF of ADD, ADC, SUB/CMP, SBB-free subset, "
+            "INC/DEC (CF preserved), NEG and SHL/SHR equal the SDM definitions; flags outside the instruction's set are preserved; PF covers the "
+            "low byte only",
+            "logic/MUL/IMUL/rotate-free forms' flags and undefined-flag masks are compared with the real CPU per generated case"),
+    "C03": ("for all operands at all four widths and all incoming flags: the 14 relational/sign/overflow conditions after CMP decide exactly the "
+            "architectural comparison; JP/JNP read PF; conditions read only the five status flags; RIP after Jcc/JRCXZ/JECXZ/JMP/CALL is the "
+            "target when taken and next_ip otherwise",
+            "CMOVcc/SETcc reuse of the predicates, indirect-branch operand plumbing and RET are compared per generated case"),
+    "C04": ("PARTIAL (known finding C04-slot-shift: the full statement is false of the pinned code, negation proved on a witness): RSP moves by "
+            "exactly -/+size mod 2^64; PUSH stores exactly the operand and nothing else; PUSH;POP and CALL;RET round-trip for all states; RET at "
+            "the stack top is the finish signal; failed pushes carry no state",
+            "the slot address itself (off by +size in the code) is reported as KNOWN-FINDING per stack form; everything else is compared with the real CPU"),
+    "C05": ("for every register file, all four scales, every displacement: effective address = base + index*scale + disp mod 2^64 (64-bit) or mod "
+            "2^32 zero-extended (0x67 prefix); FS/GS add their base mod 2^64, other segments nothing; the computation reads only base and index; "
+            "LEA stores the effective address without segment base truncated to the operand size",
+            "decoder-side canonicalisation (RIP-relative, moffs) is iced-x86's and is exercised, not modelled"),
+    "C06": ("DIV fails iff divisor = 0 or quotient >= 2^w and otherwise completes; IDIV fails iff divisor = 0 or the signed quotient does not fit; "
+            "values read through a w-bit view fit w bits; XORPS with a misaligned memory operand fails; reads/writes fail exactly outside "
+            "readable/writable mapped memory (C08/C09) and never crash",
+            "absence of spurious failures for the other forms is compared with the real CPU per generated case (Data class only)"),
+}
 for _pid, _asp, _extra in [
     ("C01", {"regs", "rsp", "rip", "xmm", "mem"}, {}),
     ("C02", {"flags"}, {}),
@@ -127,10 +154,13 @@ for _pid, _asp, _extra in [
     ("C06", {"outcome"}, {}),
 ]:
     PROPS[_pid] = {
-        "lean_modules": ["AxVerif.Props.C07"],   # replaced below as the property files appear
+        "lean_modules": ["AxVerif.Props." + _pid],
         "gen": _pid,
         "spec_determined": True,
         "native": dict({"aspects": _asp}, **_extra),
         "shards": NATIVE_SHARDS,
         "exhaustive": {"quick": [], "thorough": []},
+        "proved_scope": _SCOPES[_pid][0],
+        "sampled_only_scope": _SCOPES[_pid][1],
+        "assumptions": ["real CPU of the sandbox host as architectural oracle (single-step via IRETQ with TF); iced-x86 decoding shared by implementation and model"],
     }
